@@ -159,9 +159,8 @@ structure Config where
 /-- parallel mode on a pool of `n` workers under the schedule `s` (of the batches
 `chunks (chunksize S n) args`): the executed shots in completion order -/
 def parRunN (cfg : Config) (n S : Nat) (s : Schedule) : List Entry :=
-  match mkArgs cfg.repaired true ⟨.parent, cfg.p0⟩ S with
-  | (args, g) =>
-    consume cfg.len (chunks (chunksize S n) args) s.worker (workerInit cfg.start g) s.order
+  let ag := mkArgs cfg.repaired true ⟨.parent, cfg.p0⟩ S
+  consume cfg.len (chunks (chunksize S n) ag.1) s.worker (workerInit cfg.start ag.2) s.order
 
 /-- parallel mode on a machine with `cpu` cores -/
 def parRun (cfg : Config) (cpu S : Nat) (s : Schedule) : List Entry :=
@@ -169,8 +168,8 @@ def parRun (cfg : Config) (cpu S : Nat) (s : Schedule) : List Entry :=
 
 /-- sequential mode: all shots in the calling process (reported as worker `0`), in order -/
 def seqRun (cfg : Config) (S : Nat) : List Entry :=
-  match mkArgs cfg.repaired false ⟨.parent, cfg.p0⟩ S with
-  | (args, g) => (runShots cfg.len g args).1.map fun p => ⟨p.1, 0, p.2⟩
+  let ag := mkArgs cfg.repaired false ⟨.parent, cfg.p0⟩ S
+  (runShots cfg.len ag.2 ag.1).1.map fun p => ⟨p.1, 0, p.2⟩
 
 /-- executable: are the draw sources of a run pairwise disjoint? -/
 def pairwiseDisjointB : List Entry → Bool
@@ -187,6 +186,9 @@ structure Num (α : Type) where
   ofNat : Nat → α
   /-- `x > 0` -/
   pos : α → Bool
+
+/-- exact rational arithmetic (what the driver runs) -/
+def ratNum : Num Rat := ⟨0, (· + ·), (· / ·), fun n => (n : Rat), fun x => decide (0 < x)⟩
 
 /-- `r_sum += shot_result` for arrays of equal length -/
 def addVec {α : Type} (num : Num α) (a b : List α) : List α := List.zipWith num.add a b
